@@ -177,6 +177,9 @@ SIGMA_INL_WIDE = SIGMA_INL + [
     "[a]",
     "é",
     "b",
+    "&#9999999;",
+    "<!---->",
+    "<a /",
 ]
 # lines of a paragraph that open / close inline constructs across line boundaries (multi-line inline
 # elements), plus the line shapes line-oriented rules look at
@@ -202,7 +205,7 @@ SIGMA_MLI = [
     "> a",
     "- a",
 ]
-INL_CONTEXTS = ["{X}", "[a]: /u\n\n{X}", "# {X}", "- {X}", "> {X}"]
+INL_CONTEXTS = ["{X}", "[a]: /u\n\n{X}", "# {X}", "- {X}", "> {X}", "- # {X}"]
 
 SIGMA_RULE = [
     "",
